@@ -472,6 +472,10 @@ func c04HasBreak(g *gcase.Graph) (broken, lazy bool) {
 func runC04(ctx *vh.Ctx) error {
 	ctx.Res.Rule = "random graphs (pregel and dag, cycles, fan-in, branches, nested) whose nodes natively implement a random non-empty subset of invoke/stream/collect/transform with random chunk patterns; input chunked randomly; the same compiled object called through Invoke, Stream, Collect, Transform; non-trivial = >=2 distinct native subsets or fan-in/branch/nested/cycle; distinct by canonical case"
 	if ctx.Replay != nil {
+		var kc c04KeyCase
+		if err := json.Unmarshal(ctx.Replay, &kc); err == nil && kc.Kind == "keyval" {
+			return c04KeyOne(ctx, &kc)
+		}
 		var c c04Case
 		if err := json.Unmarshal(ctx.Replay, &c); err != nil {
 			return err
@@ -482,6 +486,9 @@ func runC04(ctx *vh.Ctx) error {
 		if err := c04One(ctx, c); err != nil {
 			return err
 		}
+	}
+	if err := c04KeyFamily(ctx); err != nil {
+		return err
 	}
 	n := ctx.N(6000, 40000)
 	for i := 0; i < n && ctx.TimeLeft(); i++ {
